@@ -218,6 +218,9 @@ func runHub(c *h.Ctx, r *h.Report) {
 
 		return
 	}
+	for _, cs := range hubCorpus() {
+		runHubCase(c, r, o, cs, g)
+	}
 	n := c.Scale(300, 8000)
 	for i := 0; i < n; i++ {
 		cs := genHubCase(c.Rand.Fork(), o, "")
@@ -227,3 +230,33 @@ func runHub(c *h.Ctx, r *h.Report) {
 }
 
 func hubOracles(hr *hubRun, cs hubCase, o *gen.Oracle) []h.Violation { return nil }
+
+// hubCorpus: hand-written and minimised past cases, run first.
+func hubCorpus() []hubCase {
+	star := claimsJSON("publish", []string{"*"}, "")
+	sub := claimsJSON("subscribe", []string{"*"}, "who")
+	pub := func(id string) hubOp {
+		return hubOp{Op: "pub", Form: url.Values{"topic": {"t"}, "id": {id}, "data": {"d"}}, Claims: star}
+	}
+	var out []hubCase
+	for _, bolt := range []bool{false, true} {
+		// a connection whose writer is stalled survives a restart and finishes afterwards
+		out = append(out, hubCase{Cfg: hubCfg{PubAlg: "HS256", SubAlg: "HS256", Anonymous: true, Subscriptions: true, Bolt: bolt}, Ops: []hubOp{
+			{Op: "sub", Label: 0, Topics: []string{"*"}, Claims: sub},
+			{Op: "sub", Label: 1, Topics: []string{"t", "a b"}},
+			{Op: "stall", Label: 1}, pub("x1"), pub("x2"), {Op: "restart"},
+			{Op: "sub", Label: 2, Topics: []string{"*"}, Claims: sub, LeidQ: "earliest"},
+			{Op: "unstall", Label: 1}, pub("x3"), {Op: "disc", Label: 2}, {Op: "close"}, pub("x4"),
+			{Op: "sub", Label: 3, Topics: []string{"*"}},
+		}})
+		// failing write, then events for the others
+		out = append(out, hubCase{Cfg: hubCfg{PubAlg: "HS256", SubAlg: "HS256", Anonymous: true, Subscriptions: true, Bolt: bolt}, Ops: []hubOp{
+			{Op: "sub", Label: 0, Topics: []string{"/.well-known/mercure/subscriptions/{topic}/{subscriber}"}, Claims: sub},
+			{Op: "sub", Label: 1, Topics: []string{"t"}},
+			{Op: "failnext", Label: 1}, pub("y1"), pub("y2"),
+			{Op: "api.list", Claims: sub}, {Op: "api.list", Claims: sub, Topic: "t"},
+		}})
+	}
+
+	return out
+}
